@@ -341,7 +341,7 @@ fn token_strings(units: &[&str], max: usize) -> Vec<String> {
     out
 }
 
-const TEXT_UNITS: &[&str] = &["a", "1", " ", "<", ">", "&", "\"", "'", "]]>", "&amp;", "&#60;", ";", "=", "/", "\\", "\x7f"];
+const TEXT_UNITS: &[&str] = &["a", "Z", "1", " ", "<", ">", "&", "\"", "'", "]]>", "&amp;", "&#60;", ";", "=", "/", "\\", "\x7f"];
 const HANDLE_UNITS: &[&str] = &["a", "Z", "0", "9", "-", "_", "/"];
 
 /// Returns the alphabet and the size of its "mid" prefix (strings of at most
@@ -373,35 +373,85 @@ fn handle_alphabet(max: usize) -> (Vec<String>, usize) {
 
 const URI_PUNCT: &str = "!$%&'()*+,-.:;=_~";
 
+/// Alphabet entries a constructor refused. Never silently dropped: listed in
+/// the evidence (a refusal is not judged, the property only speaks about
+/// messages that can be constructed).
+static REFUSED: Mutex<Vec<String>> = Mutex::new(Vec::new());
+
+fn admitted<T, E>(kind: &str, inputs: &[String], f: impl Fn(&str) -> Result<T, E>) -> Vec<T> {
+    inputs.iter().filter_map(|x| match f(x) {
+        Ok(v) => Some(v),
+        Err(_) => { REFUSED.lock().unwrap().push(format!("{kind}: {}", trunc(x, 60))); None }
+    }).collect()
+}
+
+/// Spellings of a scheme that compare equal case-insensitively.
+fn scheme_cases(scheme: &str) -> Vec<String> {
+    let lower = scheme.to_ascii_lowercase();
+    let upper = scheme.to_ascii_uppercase();
+    let title: String = lower.chars().enumerate().map(|(i, c)| if i == 0 { c.to_ascii_uppercase() } else { c }).collect();
+    let alt: String = lower.chars().enumerate().map(|(i, c)| if i % 2 == 1 { c.to_ascii_uppercase() } else { c }).collect();
+    let last: String = lower.chars().enumerate().map(|(i, c)| if i + 1 == lower.len() { c.to_ascii_uppercase() } else { c }).collect();
+    vec![lower, upper, title, alt, last]
+}
+
 fn rsync_alphabet() -> Vec<uri::Rsync> {
+    // the first entries are referred to by index (cores): append only
     let mut s: Vec<String> = vec![
         "rsync://h/m/".into(), "rsync://h/m/a".into(), "rsync://host.example:873/module/dir/file.cer".into(),
         "rsync://h/m/a&b'c".into(), "rsync://a&b/m'/x".into(), "rsync://h/m/&amp;&lt;&#39;".into(), "RSYNC://H/M/A".into(),
-        "rsync://h/m/''&&".into(), "rsync://[2001:db8::1]/m/x/".into(),
+        "rsync://h/m/''&&".into(),
     ];
     for c in URI_PUNCT.chars() { s.push(format!("rsync://h/m/a{c}b")); }
     s.push(format!("rsync://h/m/{}", "a".repeat(4000)));
     s.push(format!("rsync://h/m/{}", "&'".repeat(2000)));
-    s.iter().filter_map(|x| uri::Rsync::from_str(x).ok()).collect()
+    // scheme, authority, module and path in every letter case
+    for sc in scheme_cases("rsync").into_iter().skip(1) { s.push(format!("{sc}://h/m/a")) }
+    for x in ["rsync://HOST.Example/m/a", "rsync://h/Module/a", "rsync://h/m/Dir/File.CER", "RSYNC://HOST.EXAMPLE:873/MODULE/DIR/FILE.CER", "rsync://[2001:db8::1]/m/x/"] { s.push(x.into()) }
+    admitted("rsync", &s, uri::Rsync::from_str)
 }
 
-fn https_alphabet() -> Vec<uri::Https> {
+fn https_strings() -> Vec<String> {
     let mut s: Vec<String> = vec![
         "https://h".into(), "https://h/".into(), "https://h/rrdp/notification.xml".into(), "https://a&b'c/x".into(),
         "https://h/a&b=c&d='e'".into(), "HTTPS://H/X".into(), "https://h:8443/&amp;&quot;".into(),
     ];
     for c in URI_PUNCT.chars() { s.push(format!("https://h/p{c}q")); }
     s.push(format!("https://h/{}", "&".repeat(4000)));
-    s.iter().filter_map(|x| uri::Https::from_str(x).ok()).collect()
+    for sc in scheme_cases("https").into_iter().skip(1) { s.push(format!("{sc}://h/x")); s.push(format!("{sc}://h")) }
+    for x in ["https://HOST.Example/x", "https://h/Rrdp/Notification.XML", "HTTPS://HOST.EXAMPLE:8443/RRDP/NOTIFICATION.XML"] { s.push(x.into()) }
+    s
 }
 
+fn https_alphabet() -> Vec<uri::Https> { admitted("https", &https_strings(), uri::Https::from_str) }
+
+const SVC_PLAIN: &str = "https://h/rrdp/notification.xml";
+const SVC_SPECIAL: &str = "http://h/a?b=c&d='e'#f";
+
+/// Service URIs are built through the public enum variants, not through
+/// ServiceUri::from_str, so that what from_str (used by the parsers) makes of
+/// the written value is judged by the round trip instead of deciding what is
+/// in the alphabet.
 fn service_alphabet() -> Vec<idx::ServiceUri> {
-    let mut s: Vec<String> = https_alphabet().iter().map(|u| u.to_string()).collect();
-    for x in ["http://h", "http://h/", "http://h/a?b=c&d='e'#f", "HTTP://H/", "http://u@h:8080/[x]", "http://h/%20%26",
+    let mut out: Vec<idx::ServiceUri> = https_alphabet().into_iter().map(idx::ServiceUri::Https).collect();
+    let mut s: Vec<String> = Vec::new();
+    for x in ["http://h", "http://h/", SVC_SPECIAL, "HTTP://H/", "http://u@h:8080/[x]", "http://h/%20%26",
               "http://h/rfc6492/a&b", "http://h/?&&&'''"] { s.push(x.to_string()) }
     for c in "?#@[]".chars() { s.push(format!("http://h/p{c}q")) }
     s.push(format!("http://h/{}", "a&".repeat(2000)));
-    s.iter().filter_map(|x| idx::ServiceUri::from_str(x).ok()).collect()
+    for sc in scheme_cases("http").into_iter().skip(1) { s.push(format!("{sc}://h/x")); s.push(format!("{sc}://h")); s.push(format!("{sc}://H/a&b")) }
+    for x in ["http://HOST.Example/Path/Up-Down", "HTTP://HOST.EXAMPLE:8080/RFC6492/A"] { s.push(x.into()) }
+    out.extend(s.iter().map(|x| idx::ServiceUri::Http(x.clone())));
+    // and whatever the other public constructors make of the same strings (FromStr, TryFrom<String>)
+    for x in s.iter().chain(https_strings().iter()) {
+        for v in [idx::ServiceUri::from_str(x), idx::ServiceUri::try_from(x.clone())] {
+            match v {
+                Ok(v) => if !out.contains(&v) { out.push(v) },
+                Err(_) => REFUSED.lock().unwrap().push(format!("service_uri: {}", trunc(x, 60))),
+            }
+        }
+    }
+    out
 }
 
 fn content_alphabet(cert: &[u8]) -> Vec<Vec<u8>> {
@@ -420,10 +470,15 @@ fn key_alphabet() -> Vec<KeyIdentifier> {
 }
 
 const AS_ATOMS: &[&str] = &["", "AS0", "AS4294967295", "AS1-AS2", "AS0-AS4294967295", "AS1, AS3-AS5, AS7", "AS64496-AS64511, AS4200000000"];
+/// other spellings the FromStr constructors admit (letter case of the AS prefix, no prefix, no blanks, degenerate range)
+const AS_EXTRA: &[&str] = &["as1-As2", "1-2,5", "AS5-AS5", "7"];
 const V4_ATOMS: &[&str] = &["", "0.0.0.0/0", "10.0.0.0/8", "10.0.0.0-10.0.0.255", "10.0.0.1-10.0.0.2", "192.168.0.1", "255.255.255.255/32",
     "10.0.0.0/8, 192.168.0.0-192.168.0.9", "0.0.0.0-255.255.255.255", "0.0.0.0/1, 128.0.0.0/2"];
+const V4_EXTRA: &[&str] = &["10.0.0.0/8,192.168.0.1", " 10.0.0.0/24 ,  10.0.2.0-10.0.2.255 "];
 const V6_ATOMS: &[&str] = &["", "::/0", "2001:db8::/32", "::1", "2001:db8::1-2001:db8::5", "ffff:ffff:ffff:ffff:ffff:ffff:ffff:ffff/128",
     "::ffff:102:304/128", "2001:db8::/32, 2001:db9::1-2001:db9::ffff", "::-ffff:ffff:ffff:ffff:ffff:ffff:ffff:ffff"];
+/// upper-case hex digits, uncompressed groups, leading zeros, upper-case mapped prefix
+const V6_EXTRA: &[&str] = &["2001:DB8::/32", "2001:db8:0:0:0:0:0:0/32,2001:0DB9::1", "::FFFF:1.2.3.0/120"];
 
 fn time_alphabet() -> Vec<Time> {
     vec![Time::utc(2030, 1, 2, 3, 4, 5), Time::utc(1970, 1, 1, 0, 0, 0), Time::utc(9999, 12, 31, 23, 59, 59),
@@ -486,6 +541,8 @@ struct Fx {
     rsyncs: Vec<uri::Rsync>,
     httpss: Vec<uri::Https>,
     services: Vec<idx::ServiceUri>,
+    svc_plain: usize,
+    svc_special: usize,
     contents: Vec<Vec<u8>>,
     hashes: Vec<Hash>,
     keys: Vec<KeyIdentifier>,
@@ -525,6 +582,7 @@ impl Fx {
         let max = ctx.tier.pick(2, 3);
         let (texts, texts_mid) = text_alphabet(max);
         let (handles, handles_mid) = handle_alphabet(max);
+        let services = service_alphabet();
         Fx {
             h_a255: handles.iter().position(|h| *h == "a".repeat(255)).unwrap(),
             h_slash255: handles.iter().position(|h| *h == "/".repeat(255)).unwrap(),
@@ -532,11 +590,17 @@ impl Fx {
             contents: content_alphabet(certs[0].1.to_captured().as_slice()),
             certs, csrs, idcerts,
             texts, handles,
-            rsyncs: rsync_alphabet(), httpss: https_alphabet(), services: service_alphabet(),
+            rsyncs: rsync_alphabet(), httpss: https_alphabet(),
+            svc_plain: services.iter().position(|u| u.as_str() == SVC_PLAIN).expect("plain service uri"),
+            svc_special: services.iter().position(|u| u.as_str() == SVC_SPECIAL).expect("special service uri"),
+            services,
             hashes: hash_alphabet(), keys: key_alphabet(),
-            asn: AS_ATOMS.iter().map(|s| AsBlocks::from_str(s).expect("AS atom")).chain([AsBlocks::all(), AsBlocks::empty()]).collect(),
-            v4: V4_ATOMS.iter().map(|s| Ipv4Blocks::from_str(s).expect("v4 atom")).chain([Ipv4Blocks::all(), Ipv4Blocks::empty()]).collect(),
-            v6: V6_ATOMS.iter().map(|s| Ipv6Blocks::from_str(s).expect("v6 atom")).chain([Ipv6Blocks::all(), Ipv6Blocks::empty()]).collect(),
+            asn: AS_ATOMS.iter().map(|s| AsBlocks::from_str(s).expect("AS atom")).chain([AsBlocks::all(), AsBlocks::empty()])
+                .chain(admitted("as", &AS_EXTRA.iter().map(|s| s.to_string()).collect::<Vec<_>>(), AsBlocks::from_str)).collect(),
+            v4: V4_ATOMS.iter().map(|s| Ipv4Blocks::from_str(s).expect("v4 atom")).chain([Ipv4Blocks::all(), Ipv4Blocks::empty()])
+                .chain(admitted("ipv4", &V4_EXTRA.iter().map(|s| s.to_string()).collect::<Vec<_>>(), Ipv4Blocks::from_str)).collect(),
+            v6: V6_ATOMS.iter().map(|s| Ipv6Blocks::from_str(s).expect("v6 atom")).chain([Ipv6Blocks::all(), Ipv6Blocks::empty()])
+                .chain(admitted("ipv6", &V6_EXTRA.iter().map(|s| s.to_string()).collect::<Vec<_>>(), Ipv6Blocks::from_str)).collect(),
             times: time_alphabet(),
         }
     }
@@ -970,7 +1034,7 @@ fn space_idexchange(ctx: &Ctx, fx: &Fx) {
         roundtrip(ctx, "idex", l, &m, &|| format!("idex.child_request(id_cert={},child_handle={})", fx.idcerts[c[0]].0, trunc(&fx.handles[c[1]], 40)),
             &|m| m.to_xml_vec(), &|b| idx::ChildRequest::parse(b).map_err(idx_err));
     });
-    let cases = star2(&[nid, nh, nh, ns, fx.n_tags()], &[nid, nhm, nhm, ns, ntm], &[&core_id, &core_h, &core_h[..1], &[2, ns - 4], &core_tag], k);
+    let cases = star2(&[nid, nh, nh, ns, fx.n_tags()], &[nid, nhm, nhm, ns, ntm], &[&core_id, &core_h, &core_h[..1], &[fx.svc_plain, fx.svc_special], &core_tag], k);
     run_cases(&cases, &col, |c, l| {
         let m = idx::ParentResponse::new(id(c[0]), fx.handle(c[1]), fx.handle(c[2]), fx.services[c[3]].clone(), fx.tag(c[4]));
         roundtrip(ctx, "idex", l, &m, &|| format!("idex.parent_response(id_cert={},parent_handle={},child_handle={},service_uri={},tag={})", fx.idcerts[c[0]].0,
@@ -986,7 +1050,7 @@ fn space_idexchange(ctx: &Ctx, fx: &Fx) {
             &|m| m.to_xml_vec(), &|b| idx::PublisherRequest::parse(b).map_err(idx_err));
     });
     let nr = fx.rsyncs.len(); let nhs = fx.httpss.len() + 1;
-    let cases = star2(&[nid, nh, ns, nr, nhs, fx.n_tags()], &[nid, nhm, ns, nr, nhs, ntm], &[&core_id[..1], &core_h[..1], &[2, ns - 4], &[3], &[0, 5], &core_tag], k);
+    let cases = star2(&[nid, nh, ns, nr, nhs, fx.n_tags()], &[nid, nhm, ns, nr, nhs, ntm], &[&core_id[..1], &core_h[..1], &[fx.svc_plain, fx.svc_special], &[3], &[0, 5], &core_tag], k);
     run_cases(&cases, &col, |c, l| {
         let rrdp = if c[4] == 0 { None } else { Some(fx.httpss[c[4] - 1].clone()) };
         let m = idx::RepositoryResponse::new(id(c[0]), fx.handle(c[1]), fx.services[c[2]].clone(), fx.rsyncs[c[3]].clone(), rrdp.clone(), fx.tag(c[5]));
@@ -995,7 +1059,7 @@ fn space_idexchange(ctx: &Ctx, fx: &Fx) {
             &|m| m.to_xml_vec(), &|b| idx::RepositoryResponse::parse(b).map_err(idx_err));
     });
     sp.set("alphabet_sizes", serde_json::json!({"id_certs": nid, "handles": nh, "service_uris": ns, "tags": fx.n_tags(), "rsync": nr, "https": nhs, "k": k}));
-    sp.sample_str(|| String::from_utf8_lossy(&idx::RepositoryResponse::new(id(2), fx.handle(3), fx.services[ns - 4].clone(), fx.rsyncs[3].clone(), Some(fx.httpss[4].clone()), fx.tag(special)).to_xml_vec()).into_owned());
+    sp.sample_str(|| String::from_utf8_lossy(&idx::RepositoryResponse::new(id(2), fx.handle(3), fx.services[fx.svc_special].clone(), fx.rsyncs[3].clone(), Some(fx.httpss[4].clone()), fx.tag(special)).to_xml_vec()).into_owned());
     col.finish(true, &format!("star product, k = {k}"));
 }
 
@@ -1081,7 +1145,7 @@ const SETUP_NS: &str = "http://www.hactrn.net/uris/rpki/rpki-setup/";
 
 fn space_seeds(ctx: &Ctx, fx: &Fx) {
     let sp = ctx.space("seed.decoded",
-        "messages obtained through the public decoders from the repository's captured documents and from hand-written documents that set fields no constructor can set (tag on child_request and report_error, failed_pdu, absent description / error_text, referral and offer elements, suggested_sia_head, comments, single-quoted attributes, character references); then parse(write(m)) == m and well-formedness; non-trivial = distinct written documents");
+        "messages obtained through the public decoders from the repository's captured documents and from hand-written documents that set fields no constructor can set (tag on child_request and report_error, failed_pdu, absent description, referral and offer elements, comments, single-quoted attributes, character references) or that spell values differently (scheme letter case in every URI attribute, upper / mixed-case hex hashes, padded ski, base64 with line breaks, RFC 6492 style and upper-case resource sets, time-zone offsets, namespace without slash); then parse(write(m)) == m and well-formedness; non-trivial = distinct written documents");
     let col = Collector::new(sp.clone());
     let mut l = Local::reporting();
     for f in ["error-reply", "list-reply-empty-short", "list-reply-empty", "list-reply-single", "list-reply", "list", "publish-empty-short", "publish-empty", "publish-multi", "publish-single", "success-reply"] {
@@ -1122,6 +1186,58 @@ fn space_seeds(ctx: &Ctx, fx: &Fx) {
         if let Err(e) = wf_check(doc.as_bytes()) { ctx.machinery_error(format!("hand-written seed {name} is not well-formed: {e}")) }
         seed_case(ctx, &mut l, *p, name, doc.as_bytes(), true);
     }
+    // --- other spellings of the same values: letter case of schemes, hex digits and keywords, base64 with
+    // padding / line breaks, RFC 6492 style resource sets, time zone offsets. Decoded, then judged like every
+    // other message obtained through the public API: parse(write(m)) == m and well-formed output.
+    let hu = h.to_string().to_ascii_uppercase();
+    let hm: String = h.to_string().chars().enumerate().map(|(i, c)| if i % 2 == 0 { c.to_ascii_uppercase() } else { c }).collect();
+    let ski_pad = base64::Engine::encode(&base64::engine::general_purpose::URL_SAFE, fx.keys[3].as_slice());
+    let ski_std = base64::Engine::encode(&base64::engine::general_purpose::STANDARD_NO_PAD, fx.keys[3].as_slice());
+    let idb64 = base64::Engine::encode(&base64::engine::general_purpose::STANDARD, &fx.idcerts[0].1);
+    let wrapped = |sep: &str| idb64.as_bytes().chunks(64).map(|c| std::str::from_utf8(c).unwrap()).collect::<Vec<_>>().join(sep);
+    let mut spell: Vec<(Parser, String, String)> = vec![
+        (Parser::Pub, "list_reply.hash-upper+scheme-upper".into(), format!("<msg xmlns=\"{PUB_NS}\" version=\"4\" type=\"reply\"><list uri=\"RSYNC://H/M/a\" hash=\"{hu}\"/><list uri=\"Rsync://h/m/b\" hash=\"{hm}\"/><list uri=\"rsynC://h/m/c\" hash=\"{h}\"/></msg>")),
+        (Parser::Pub, "delta.hash-upper+base64-layout".into(), format!("<msg xmlns=\"{PUB_NS}\" version=\"4\" type=\"query\"><publish tag=\"T\" uri=\"rSyNc://h/M/A.Cer\" hash=\"{hu}\">\n  QU\n\tJD\r\n  RA==\n</publish><publish uri=\"rsync://h/m/q\">QQ==</publish><withdraw uri=\"RSYNC://h/m/b\" hash=\"{hm}\"/></msg>")),
+        (Parser::Pub, "publish.base64-unpadded".into(), format!("<msg xmlns=\"{PUB_NS}\" version=\"4\" type=\"query\"><publish uri=\"rsync://h/m/q\">QQ</publish></msg>")),
+        (Parser::Pub, "msg.type-upper".into(), format!("<msg xmlns=\"{PUB_NS}\" version=\"4\" type=\"QUERY\"><list/></msg>")),
+        (Parser::Pub, "report_error.code-upper".into(), format!("<msg xmlns=\"{PUB_NS}\" version=\"4\" type=\"reply\"><report_error error_code=\"XML_ERROR\"><error_text>t</error_text></report_error></msg>")),
+        (Parser::Prov, "revoke.ski-padded".into(), format!("<message xmlns=\"{PROV_NS}\" version=\"1\" sender=\"Child\" recipient=\"PARENT\" type=\"revoke\"><key class_name=\"Class A\" ski=\"{ski_pad}\"/></message>")),
+        (Parser::Prov, "revoke.ski-standard-alphabet".into(), format!("<message xmlns=\"{PROV_NS}\" version=\"1\" sender=\"s\" recipient=\"r\" type=\"revoke\"><key class_name=\"c\" ski=\"{ski_std}\"/></message>")),
+        (Parser::Prov, "message.type-upper".into(), format!("<message xmlns=\"{PROV_NS}\" version=\"1\" sender=\"s\" recipient=\"r\" type=\"LIST\"/>")),
+        (Parser::Child, "child_request.base64-lf-wrapped".into(), format!("<child_request xmlns=\"{SETUP_NS}\" version=\"1\" child_handle=\"Carol\">\n<child_bpki_ta>\n{}\n</child_bpki_ta>\n</child_request>", wrapped("\n"))),
+        (Parser::Publisher, "publisher_request.base64-crlf-wrapped+ns-without-slash".into(), format!("<publisher_request xmlns=\"{}\" version=\"1\" publisher_handle=\"ALICE/Bob\" tag=\"Tag\"><publisher_bpki_ta>{}</publisher_bpki_ta></publisher_request>", SETUP_NS.trim_end_matches('/'), wrapped("\r\n"))),
+    ];
+    for sc in scheme_cases("http").into_iter().chain(scheme_cases("https")) {
+        spell.push((Parser::Parent, format!("parent_response.service_uri-scheme={sc}"), format!("<parent_response xmlns=\"{SETUP_NS}\" version=\"1\" service_uri=\"{sc}://Host.Example/Up-Down/a&amp;b\" child_handle=\"c\" parent_handle=\"P\"><parent_bpki_ta>QUJD</parent_bpki_ta></parent_response>")));
+        for (r, n) in scheme_cases("rsync").into_iter().zip(scheme_cases("https")) {
+            spell.push((Parser::Repo, format!("repository_response.schemes={sc},{r},{n}"), format!("<repository_response xmlns=\"{SETUP_NS}\" version=\"1\" publisher_handle=\"p\" service_uri=\"{sc}://h/x\" sia_base=\"{r}://H/M/d/\" rrdp_notification_uri=\"{n}://H/N.xml\"><repository_bpki_ta>QUJD</repository_bpki_ta></repository_response>")));
+        }
+    }
+    // RFC 6492 documents: the library's own list response with single attribute values respelled
+    let docs = seed_documents(fx);
+    let lr = String::from_utf8_lossy(&docs.iter().find(|d| d.0 == "prov.list_response").unwrap().2).into_owned();
+    for (name, from, to) in [
+        ("as-rfc-style", "resource_set_as=\"AS1, AS3-AS5, AS7\"", "resource_set_as=\"1,3-5,7\""),
+        ("as-prefix-case", "resource_set_as=\"AS1, AS3-AS5, AS7\"", "resource_set_as=\"as1,As3-aS5, AS7\""),
+        ("ipv4-no-blanks", "resource_set_ipv4=\"10.0.0.0/8, 192.168.0.0-192.168.0.9\"", "resource_set_ipv4=\"10.0.0.0/8,192.168.0.0-192.168.0.9\""),
+        ("ipv6-upper-hex", "resource_set_ipv6=\"2001:db8::/32, 2001:db9::1-2001:db9::ffff\"", "resource_set_ipv6=\"2001:DB8::/32,2001:DB9::1-2001:DB9::FFFF\""),
+        ("ipv6-uncompressed", "resource_set_ipv6=\"2001:db8::/32, 2001:db9::1-2001:db9::ffff\"", "resource_set_ipv6=\"2001:0db8:0:0:0:0:0:0/32, 2001:db9:0::1-2001:db9::0:ffff\""),
+        ("notafter-offset-zero", "resource_set_notafter=\"2030-01-02T03:04:05Z\"", "resource_set_notafter=\"2030-01-02T03:04:05+00:00\""),
+        ("notafter-offset-hour", "resource_set_notafter=\"2030-01-02T03:04:05Z\"", "resource_set_notafter=\"2030-01-02T04:04:05+01:00\""),
+        ("notafter-lower-case", "resource_set_notafter=\"2030-01-02T03:04:05Z\"", "resource_set_notafter=\"2030-01-02t03:04:05z\""),
+        ("notafter-zero-fraction", "resource_set_notafter=\"2030-01-02T03:04:05Z\"", "resource_set_notafter=\"2030-01-02T03:04:05.000Z\""),
+        ("cert_url-scheme-upper", "cert_url=\"rsync://", "cert_url=\"RSYNC://"),
+        ("cert_url-scheme-mixed", "cert_url=\"rsync://", "cert_url=\"rSyNc://"),
+        ("req-limit-respelled", "req_resource_set_as=\"AS1, AS3-AS5, AS7\"", "req_resource_set_as=\"1,3-5,as7\""),
+        ("type-and-handles-case", "sender=\"-\"", "sender=\"Sender-X\""),
+    ] {
+        if lr.contains(from) { spell.push((Parser::Prov, format!("list_response.{name}"), lr.replace(from, to))) }
+        else { l.rejected_seeds.push(format!("list_response.{name}: attribute to respell not found in the library's output")) }
+    }
+    for (p, name, doc) in &spell {
+        if let Err(e) = wf_check(doc.as_bytes()) { ctx.machinery_error(format!("hand-written seed {name} is not well-formed: {e}")) }
+        seed_case(ctx, &mut l, *p, name, doc.as_bytes(), true);
+    }
     // a not-after with fractional seconds (xsd:dateTime admits them; chrono's DateTime carries them)
     {
         use chrono::{TimeZone, Utc};
@@ -1133,9 +1249,11 @@ fn space_seeds(ctx: &Ctx, fx: &Fx) {
         }
     }
     sp.set("hand_written_documents_not_accepted", serde_json::json!(l.rejected_seeds));
+    let mut refused = REFUSED.lock().unwrap().clone(); refused.sort(); refused.dedup();
+    sp.set("alphabet_entries_refused_by_a_constructor", serde_json::json!(refused));
     col.merge(l);
     sp.sample_str(|| hand[6].2.clone());
-    col.finish(true, &format!("30 captured + {} hand-written documents + 2 fractional times", hand.len()));
+    col.finish(true, &format!("30 captured + {} hand-written + {} respelled documents + 2 fractional times", hand.len(), spell.len()));
 }
 
 //============ Parsers on deviating and arbitrary input ======================
@@ -1207,9 +1325,9 @@ fn seed_documents(fx: &Fx) -> Vec<(&'static str, Parser, Vec<u8>)> {
         ("pub.error_reply", Parser::Pub, pub_write(&publ::Message::error(er))),
         ("pub.error_reply.failed_pdu", Parser::Pub, format!("<msg xmlns=\"{PUB_NS}\" version=\"4\" type=\"reply\">\n  <report_error error_code=\"no_object_present\" tag=\"t\">\n    <error_text>text</error_text>\n    <failed_pdu>\n      <publish tag=\"x\" uri=\"rsync://h/m/a&amp;b\" hash=\"{}\">QUJD</publish>\n    </failed_pdu>\n  </report_error>\n</msg>", fx.hashes[2]).into_bytes()),
         ("idex.child_request", Parser::Child, idx::ChildRequest::new(id.clone(), fx.handle(0)).to_xml_vec()),
-        ("idex.parent_response", Parser::Parent, idx::ParentResponse::new(id.clone(), fx.handle(0), fx.handle(1), fx.services[fx.services.len() - 4].clone(), t()).to_xml_vec()),
+        ("idex.parent_response", Parser::Parent, idx::ParentResponse::new(id.clone(), fx.handle(0), fx.handle(1), fx.services[fx.svc_special].clone(), t()).to_xml_vec()),
         ("idex.publisher_request", Parser::Publisher, idx::PublisherRequest::new(id.clone(), fx.handle(0), t()).to_xml_vec()),
-        ("idex.repository_response", Parser::Repo, idx::RepositoryResponse::new(id, fx.handle(0), fx.services[2].clone(), fx.rsyncs[3].clone(), Some(fx.httpss[4].clone()), t()).to_xml_vec()),
+        ("idex.repository_response", Parser::Repo, idx::RepositoryResponse::new(id, fx.handle(0), fx.services[fx.svc_plain].clone(), fx.rsyncs[3].clone(), Some(fx.httpss[4].clone()), t()).to_xml_vec()),
     ]
 }
 
@@ -1318,7 +1436,7 @@ fn space_parsers(ctx: &Ctx, fx: &Fx) {
 
 fn main() {
     let ctx = Ctx::new("C11", "exploration");
-    ctx.assume("protocol-valid field values: handles [-_A-Za-z0-9/]{1,255} (RFC 8183 pattern; the empty handle the pattern would admit is refused by the library's own FromStr and left out); tags and class names xsd:token over printable ASCII and DEL, class names non-empty, at most 1024 characters; URIs as admitted by uri::Rsync / uri::Https / ServiceUri with RFC 3986 characters; resource sets in canonical form built by FromStr / all() / empty(); not-after times with whole seconds in years 1..9999 (fractional seconds are a separately named oracle); object contents of any length including 0 (RFC 8181 base64 = xsd:base64Binary without minLength); ID certificates non-empty");
+    ctx.assume("protocol-valid field values: handles [-_A-Za-z0-9/]{1,255} (RFC 8183 pattern; the empty handle the pattern would admit is refused by the library's own FromStr and left out); tags and class names xsd:token over printable ASCII and DEL, class names non-empty, at most 1024 characters; URIs as admitted by uri::Rsync / uri::Https with RFC 3986 characters and every letter case of scheme, authority and path, service URIs built through the public ServiceUri::Https / ServiceUri::Http variants (http scheme in every letter case) as well as through FromStr / TryFrom; resource sets in canonical form built by FromStr / all() / empty(); not-after times with whole seconds in years 1..9999 (fractional seconds are a separately named oracle); object contents of any length including 0 (RFC 8181 base64 = xsd:base64Binary without minLength); ID certificates non-empty");
     ctx.assume("non-ASCII field values are outside the property (rejected by ascii_into by design)");
     ctx.assume("quick-xml, base64, chrono and bcder are trusted as libraries; the well-formedness verdict comes from the checker in this file, quick-xml's raw reader is only a second opinion");
     let t0 = std::time::Instant::now();
